@@ -31,6 +31,7 @@ pub enum Step {
     Sub { msg: CosmosMsg, reply_on: ReplyOn, id: u64, on_reply: Option<Script> },
     QueryBalance { tag: String, addr: String, denom: String },
     QueryRaw { tag: String, addr: String, key: Binary },
+    QuerySupply { tag: String, denom: String },
     QuerySmartGet { tag: String, addr: String, key: String },
     /// smart query answered by iterating the other contract's storage
     QuerySmartList { tag: String, addr: String, descending: bool },
@@ -161,6 +162,13 @@ fn run(deps: DepsMut, env: &Env, script: &Script, ev: &mut Ev) -> StdResult<Resp
                     _ => addr.clone(),
                 };
                 let o = match deps.querier.query_balance(addr.clone(), denom.clone()) {
+                    Ok(c) => Obs::Num(c.amount),
+                    Err(e) => Obs::Err(e.to_string()),
+                };
+                ev.obs.push((tag.clone(), o));
+            }
+            Step::QuerySupply { tag, denom } => {
+                let o = match deps.querier.query_supply(denom.clone()) {
                     Ok(c) => Obs::Num(c.amount),
                     Err(e) => Obs::Err(e.to_string()),
                 };
